@@ -283,6 +283,13 @@ where
         return Ok(output.into_dyn());
     }
 
+    // `build_im2col` tells padding apart from image positions by comparing
+    // offsets along the H and W axes with the extent of each axis. This
+    // requires non-zero strides, so copy the input if it is a broadcast view.
+    let input_copy = (has_padding && (input.stride(2) == 0 || input.stride(3) == 0))
+        .then(|| input.to_tensor_in(pool).auto_return(pool));
+    let input = input_copy.as_ref().map(|t| t.view()).unwrap_or(input);
+
     let n_patches = out_h * out_w;
     let mut output = NdTensor::uninit_in(pool, [batch, out_channels, n_patches]);
     let gemm = GemmExecutor::<W, X, Y>::default();
